@@ -190,6 +190,11 @@ impl<'a> StagesBuilder<'a> {
         reads.sort();
         reads.dedup();
 
+        // A dependency named twice is still one dependency: `remove_ids` crosses
+        // off one occurrence per stage, so a duplicate would never be resolved.
+        dep.sort();
+        dep.dedup();
+
         let new_time = system.running_time();
 
         let target = self.insertion_target(&reads, &writes, &mut dep, new_time);
